@@ -52,6 +52,8 @@ def walk(sc, obs):
         name = op[0]
         info = {"nh": len(handles), "nb": len(bufs)}
         trace.append(info)
+        if ob[0] == "skip":
+            continue          # the harness could not perform the step (no such buffer, backup copy not settled in time)
         if ob[0] == "hang":
             return (i, "operation %s did not return (watchdog)" % name), trace
         if ob[0] == "panic":
@@ -219,6 +221,8 @@ def to_coq(sc, obs, I=None):
         ob = obs[i]
         if ob[0] in ("hang", "panic", "?"):
             break
+        if ob[0] == "skip":
+            continue
         name = op[0]
         t = trace[i]
         if name in ("put", "putbuf", "putraw", "putbufdefer"):
@@ -390,8 +394,8 @@ def gen_cluster(rng, sid, replicas=None, nops=None, join=None):
     # (one partition over several members makes the consistent-hash library panic: not a C18 matter)
     # and the member count must never exceed the partition count)
     opts = {"members": members, "replicas": replicas, "partitions": rng.choice([p for p in (3, 7) if p > members]), "table": table}
-    if replicas > 1 and rng.random() < 0.4:
-        opts["async"] = True       # asynchronous replication: the backup is written by a goroutine that outlives Put
+    # (asynchronous replication is exercised by gen_async_reuse only: there a backup write may overtake an earlier one of the
+    # same key, so the sequential reference of this generator does not apply to it - thorough-tier false alarm, DESIGN 13.5)
     nkeys = rng.choice([2, 3, 5])
     keys = [bytes([107, 48 + j]).hex() for j in range(nkeys)]
     maxv = rng.choice([8, 24, 48])
